@@ -282,6 +282,47 @@ func main() {
 			}
 		}(w)
 	}
+	// SEVERAL template records in ONE set (a large definition followed by a small one), announced over and over by one exporter
+	// while two goroutines decode data for the first of them: whatever the parser does to storage it used for the previous
+	// record, a template that is in the cache is read-only
+	multiIP := net.IPv4(203, 0, 114, 7).To4()
+	twoRecords := func(version int) []byte {
+		a, b := []uint16{8, 12, 7, 11, 4, 5}, []uint16{1, 2}
+		m := ipfixTemplateMsg(3000, a)
+		m2 := ipfixTemplateMsg(3001, b)
+		hl, sid := 16, byte(2)
+		if version == 9 {
+			m, m2 = nf9TemplateMsg(3000, a), nf9TemplateMsg(3001, b)
+			hl, sid = 20, 0
+		}
+		body := append(append([]byte{}, m[hl+4:]...), m2[hl+4:]...)
+		set := append([]byte{0, sid, 0, byte(4 + len(body))}, body...)
+		msg := append([]byte{}, m[:hl]...)
+		if version == 10 {
+			binary.BigEndian.PutUint16(msg[2:], uint16(hl+len(set)))
+		}
+		return append(msg, set...)
+	}
+	wg.Add(3)
+	go func() {
+		defer wg.Done()
+		m10, m9 := twoRecords(10), twoRecords(9)
+		for atomic.LoadInt32(&stop) == 0 {
+			ipfix.NewDecoder(multiIP, m10).Decode(mc)
+			netflow9.NewDecoder(multiIP, m9).Decode(mc9)
+			atomic.AddUint64(&ops, 2)
+		}
+	}()
+	for r := 0; r < 2; r++ {
+		go func() {
+			defer wg.Done()
+			for atomic.LoadInt32(&stop) == 0 {
+				ipfix.NewDecoder(multiIP, dataMsg(10, 3000)).Decode(mc)
+				netflow9.NewDecoder(multiIP, dataMsg(9, 3000)).Decode(mc9)
+				atomic.AddUint64(&ops, 2)
+			}
+		}()
+	}
 	wg.Add(3)
 	wg.Add(1)
 	go func() { // lookups of the silent exporters' saved templates (their shards are read while dumps run)
